@@ -107,6 +107,25 @@ def check(pid, tier, args):
             run.cov["models"].append({"model": "MC_ReaderStack/gen_%s (simulation; behaviours replayed on the real bufio stack)" % mode,
                                       "distinct_states": 0, "states_generated": r.generated, "depth": 80, "wall_s": round(r.wall, 2), "bounds": {"BUF": 16, "MaxN": 44}})
         run.cov["readerstack_behaviours_replayed_on_real_bufio"] = nb
+    # 1c. unbounded source length and buffer size: Apalache discharges the inductive invariant of
+    #     the reader-stack core (Init => IndInv; IndInv /\ Next => IndInv')
+    if pid in ("C07", "C18"):
+        import shutil, subprocess, tempfile, time as _t
+        wd = tempfile.mkdtemp(prefix="apa-", dir=vlib.scratch())
+        shutil.copy(os.path.join(vlib.SPEC, "ReaderStackInd.tla"), wd)
+        t0 = _t.time()
+        for init, length in (("Init", "0"), ("IndInit", "1")):
+            try:
+                pa = subprocess.run(["apalache-mc", "check", "--cinit=ConstInit", "--init=" + init, "--inv=IndInv",
+                                     "--length=" + length, "ReaderStackInd.tla"], cwd=wd, capture_output=True, text=True, timeout=600)
+            except subprocess.TimeoutExpired:
+                raise vlib.Infra("apalache timed out")
+            if "EXITCODE: OK" not in pa.stdout:
+                raise vlib.Infra("Apalache did not discharge the inductive invariant (%s, length %s): %s" % (init, length, pa.stdout[-800:]))
+        run.cov["apalache_inductive_invariant"] = {"module": "ReaderStackInd", "invariant": "IndInv (tee = pulled, 0 <= consumed <= pulled <= n, pulled - consumed <= BUF)",
+                                                   "obligations": ["Init => IndInv", "IndInv /\\ Next => IndInv'"], "unbounded": "n and BUF symbolic",
+                                                   "wall_s": round(_t.time() - t0, 1)}
+        shutil.rmtree(wd, ignore_errors=True)
     # 2. corpus from TLC-generated container files, real loaders, instrumented source
     cases = gen_cases(run, tier)
     out = os.path.join(vlib.scratch(), "loads")
